@@ -12,7 +12,7 @@ use std::sync::Arc;
 use std::time::{Duration, Instant};
 use stretto::verif::{clock, counters, sched};
 
-const ALL: [Flavor; 5] = [Flavor::Sync, Flavor::Async(Exec::TokioMt), Flavor::Async(Exec::TokioCt), Flavor::Async(Exec::AsyncStd), Flavor::Async(Exec::ThreadPerTask)];
+const ALL: [Flavor; 6] = [Flavor::Sync, Flavor::Async(Exec::TokioMt), Flavor::Async(Exec::TokioCt), Flavor::Async(Exec::AsyncStd), Flavor::Async(Exec::ThreadPerTask), Flavor::Async(Exec::Seeded)];
 
 fn workers_gone(flavor: Flavor, timeout: Duration) -> bool {
     crate::supervise::polling(|| workers_gone_inner(flavor, timeout))
